@@ -445,4 +445,66 @@ theorem chain3_hs_window (depth : Nat) (hd : 0 < depth) (z : Tok α)
         refine Nat.le_trans ?_ (Nat.le_add_right _ _)
         simp [accepted, accNow, Elem.comp, pipeValid, syncFifo, Elem.out, h0]
 
+/-! ### The sink is served (AcceptsWithin) for the elements that are not ready-transparent -/
+
+theorem pipeReady_acc_dec (z : Tok α) (s : PRState α) (i : In α) (hs : prInv s) (hc : Coop i) :
+    1 ≤ ((pipeReady z).accNow s i).length ∨
+      (fun s : PRState α => if s.valid then 1 else 0) ((pipeReady z).step s i) <
+        (fun s : PRState α => if s.valid then 1 else 0) s := by
+  obtain ⟨hv, hr⟩ := hc
+  obtain ⟨iv, it, ir⟩ := i
+  obtain ⟨sv, sdv, st⟩ := s
+  simp only at hv hr; subst hv; subst hr
+  cases sv <;> simp [pipeReady, Elem.step, Elem.accNow, Elem.out]
+
+theorem syncFifo_acc_dec (depth : Nat) (hd : 0 < depth) (z : Tok α) (q : List (Tok α)) (i : In α)
+    (hq : fifoInv depth q) (hc : Coop i) :
+    1 ≤ ((syncFifo depth z).accNow q i).length ∨
+      (fun q : List (Tok α) => if q.length = depth then 1 else 0) ((syncFifo depth z).step q i) <
+        (fun q : List (Tok α) => if q.length = depth then 1 else 0) q := by
+  obtain ⟨hv, hr⟩ := hc
+  obtain ⟨iv, it, ir⟩ := i
+  simp only at hv hr; subst hv; subst hr
+  unfold fifoInv at hq
+  by_cases hfull : q.length = depth
+  · right
+    cases q with
+    | nil => simp at hfull; omega
+    | cons x xs =>
+      have h1 : ¬ (xs.length = depth) := by simp at hfull; omega
+      simp [syncFifo, Elem.step, hfull, h1]
+  · left
+    simp [syncFifo, Elem.accNow, Elem.out, hfull]
+
+theorem syncFifoBuffered_acc_dec (depth : Nat) (hd : 2 ≤ depth) (z : Tok α) (s : FBState α) (i : In α)
+    (hs : fbInv depth s) (hc : Coop i) :
+    1 ≤ ((syncFifoBuffered depth z).accNow s i).length ∨
+      (fun s : FBState α => if s.q.length = depth then 1 else 0) ((syncFifoBuffered depth z).step s i) <
+        (fun s : FBState α => if s.q.length = depth then 1 else 0) s := by
+  obtain ⟨hv, hr⟩ := hc
+  obtain ⟨iv, it, ir⟩ := i
+  obtain ⟨q, rd, dout⟩ := s
+  obtain ⟨h1, h2⟩ := hs
+  simp only at hv hr h1 h2; subst hv; subst hr
+  by_cases hfull : q.length = depth
+  · right
+    -- a full inner FIFO (≥ 2 words) implies the output register is occupied: it is taken, the inner FIFO pops
+    have hrd : rd = true := by
+      cases rd with
+      | true => rfl
+      | false => have := h2 rfl; omega
+    subst hrd
+    cases q with
+    | nil => simp at hfull; omega
+    | cons x xs =>
+      have h3 : ¬ (xs.length = depth) := by simp at hfull; omega
+      simp [syncFifoBuffered, Elem.step, hfull, h3]
+  · left
+    simp [syncFifoBuffered, Elem.accNow, Elem.out, hfull]
+
+theorem wire_readyTransparent : ReadyTransparent (wire (α := α)) (fun _ => True) := fun _ _ _ _ => rfl
+
+theorem mapElem_readyTransparent {β : Type} (f : α → β) : ReadyTransparent (mapElem f) (fun _ => True) :=
+  fun _ _ _ _ => rfl
+
 end Litex.Stream
